@@ -24,6 +24,8 @@ type incVector struct {
 	Diamond   bool                `json:"diamond"`
 	Odd       string              `json:"odd"`
 	OddMerged bool                `json:"oddMerged"`
+	Twice     string              `json:"twice"`
+	Rules     []string            `json:"rules"`
 }
 
 type incTree struct {
@@ -56,7 +58,7 @@ func (tr *incTree) specText(s string) string {
 	return s
 }
 
-func (tr *incTree) write(inc map[string][]string, odd string) error {
+func (tr *incTree) write(inc map[string][]string, odd, twice string) error {
 	for id, p := range tr.path {
 		var sb strings.Builder
 		if specs := inc[id]; len(specs) > 0 {
@@ -68,6 +70,10 @@ func (tr *incTree) write(inc map[string][]string, odd string) error {
 		}
 		// marker items: the order of these in the merged sections is the merge order
 		fmt.Fprintf(&sb, "global {\n  marker: %s\n}\nrouting {\n  pname(%s) -> direct\n}\n", id, id)
+		if id == twice {
+			// the same section spelled a second time in the same file
+			fmt.Fprintf(&sb, "routing {\n  pname(%s2) -> direct\n}\n", id)
+		}
 		if id == odd {
 			// a section name dae does not know (a typo of "routing"): it must survive the merge so that config.New can reject it
 			fmt.Fprintf(&sb, "routng {\n  marker: %s\n}\n", id)
@@ -147,12 +153,12 @@ func TestVerifC17Include(t *testing.T) {
 	allowed := map[string]bool{"P/E/main.dae": true, "P/E/a.dae": true, "P/E/z.dae": true, "P/E/sub/b.dae": true}
 	for vi, v := range vecs {
 		res.Case()
-		if err := tr.write(v.Inc, v.Odd); err != nil {
+		if err := tr.write(v.Inc, v.Odd, v.Twice); err != nil {
 			t.Fatal(err)
 		}
 		w.drain() // forget the writes
-		key := fmt.Sprintf("c17-include:main=%v;a=%v;b=%v;odd=%s", v.Inc["main"], v.Inc["a"], v.Inc["b"], v.Odd)
-		repl := map[string]any{"includes": v.Inc, "file_with_unknown_section": v.Odd}
+		key := fmt.Sprintf("c17-include:main=%v;a=%v;b=%v;odd=%s;twice=%s", v.Inc["main"], v.Inc["a"], v.Inc["b"], v.Odd, v.Twice)
+		repl := map[string]any{"includes": v.Inc, "file_with_unknown_section": v.Odd, "file_with_two_routing_blocks": v.Twice}
 		if vi < 2 {
 			res.Sample(repl)
 		}
@@ -202,8 +208,41 @@ func TestVerifC17Include(t *testing.T) {
 					got = append(got, x.AndFunctions[0].Params[0].Val)
 				}
 			}
-			if strings.Join(got, ",") != strings.Join(v.Order, ",") {
-				res.Failf(key+"|order", repl, "include lists %v: section %s merged in order %v, the listed order gives %v", v.Inc, sec.Name, got, v.Order)
+			want := v.Order
+			if sec.Name == "routing" {
+				want = v.Rules
+			}
+			if strings.Join(got, ",") != strings.Join(want, ",") {
+				res.Failf(key+"|order", repl, "include lists %v (file %q spells routing in two blocks): section %s merged in order %v, what is written gives %v", v.Inc, v.Twice, sec.Name, got, want)
+			}
+		}
+		// the typed configuration holds exactly the rules that are written, in order (whatever the shape of the merged section list)
+		if v.Odd == "none" {
+			var typed []*config_parser.Section
+			for _, sec := range sections {
+				g := &config_parser.Section{Name: sec.Name}
+				for _, it := range sec.Items {
+					if pr, ok := it.Value.(*config_parser.Param); ok && pr.Key == "marker" {
+						continue
+					}
+					g.Items = append(g.Items, it)
+				}
+				typed = append(typed, g)
+			}
+			res.Eval(1)
+			conf, nerr := New(typed)
+			if nerr != nil {
+				res.Failf(key+"|typed", repl, "include lists %v (file %q spells routing in two blocks): config.New rejects the merged sections: %v", v.Inc, v.Twice, nerr)
+			} else {
+				var got []string
+				for _, r := range conf.Routing.Rules {
+					if len(r.AndFunctions) > 0 && len(r.AndFunctions[0].Params) > 0 {
+						got = append(got, r.AndFunctions[0].Params[0].Val)
+					}
+				}
+				if strings.Join(got, ",") != strings.Join(v.Rules, ",") {
+					res.Failf(key+"|rules", repl, "include lists %v (file %q spells routing in two blocks): the typed configuration holds the routing rules %v, what is written gives %v", v.Inc, v.Twice, got, v.Rules)
+				}
 			}
 		}
 		// a section of unknown name is carried through the merge, from whichever file it comes, and then rejected by config.New
